@@ -108,6 +108,11 @@ func (vc *VC) newFrame(fn *ssa.Function, con *Contract, depth int) *frame {
 						f.names[ins.Comment] = append(f.names[ins.Comment], nameDef{val: ins, isAddr: true, block: b, idx: i})
 					}
 				}
+			case *ssa.Slice:
+				// the slice made from a composite literal (`for _, v := range []T{...}`): spelled slicelit
+				if a, ok := ins.X.(*ssa.Alloc); ok && a.Comment == "slicelit" {
+					f.names["slicelit"] = append(f.names["slicelit"], nameDef{val: ins, block: b, idx: i})
+				}
 			case *ssa.DebugRef:
 				if id, ok := ins.Expr.(*ast.Ident); ok {
 					f.names[id.Name] = append(f.names[id.Name], nameDef{val: ins.X, isAddr: ins.IsAddr, block: b, idx: i})
